@@ -5,8 +5,8 @@ CONSTANTS
     A = 4
     MinPS = 2
     CheckPS = TRUE
-    MaxN = 215
-    HomMax = 35
+    MaxN = 150
+    HomMax = 33
     Qs = {5, 7}
     MaxShares = 4
 INVARIANTS PaillierInverts PaillierHomomorphic
